@@ -81,7 +81,18 @@ def _make_wc_step(name, spec, world, plumpy):
             elif kind == 'launchonly':
                 _launch_child(self, world, eff['child'])
             elif kind == 'ctxset':
-                self.ctx[eff['key']] = eff['v']
+                self.ctx[eff['key']] = __import__('copy').deepcopy(eff['v'])
+            elif kind == 'ctxalias':
+                # two context entries refer to the very same object
+                if hasattr(self.ctx, eff['src']):
+                    self.ctx[eff['dst']] = self.ctx[eff['src']]
+            elif kind == 'ctxappend':
+                # in-place mutation of a context value (visible through every alias of it)
+                target = getattr(self.ctx, eff['key'], None)
+                if isinstance(target, list):
+                    target.append(eff['v'])
+                elif isinstance(target, dict):
+                    target[str(eff['v'])] = eff['v']
             else:
                 programs._do_effect(self, world, eff, plumpy)
         ret = spec.get('ret')
@@ -286,6 +297,11 @@ def gen_outline(rng, cfg=None):
         effects = []
         if rng.random() < 0.4:
             effects.append({'e': 'ctxset', 'key': rng.choice(['a', 'b', 'c']), 'v': programs.gen_value(rng)})
+        if cfg.get('aliasing', True) and rng.random() < 0.2:
+            effects.append({'e': 'ctxset', 'key': 'lst', 'v': [counter[0]]})
+            effects.append({'e': 'ctxalias', 'src': 'lst', 'dst': 'same'})
+        if cfg.get('aliasing', True) and rng.random() < 0.3:
+            effects.append({'e': 'ctxappend', 'key': rng.choice(['lst', 'same']), 'v': counter[0]})
         if rng.random() < 0.25:
             effects.append({'e': 'out', 'k': rng.choice(['o1', 'ns.o2']), 'v': programs.gen_value(rng)})
         if rng.random() < 0.15:
